@@ -1067,6 +1067,12 @@ theorem period_extension_counterexample :
 theorem endBlock_frame (s : St) : (endBlock s).baskets = s.baskets ∧ (endBlock s).bank = s.bank ∧ (endBlock s).now = s.now :=
   ⟨rfl, rfl, rfl⟩
 
+/-- the limits window is computed through `time.Duration` (int64 nanoseconds): a period of 2^40 s no longer fits
+(2^40 * 10^9 ≥ 2^63), periods up to 9 * 10^9 s - the largest the generated configurations use - do. The model keeps
+exact integers: beyond the wrap it and the implementation part ways (recorded finding
+`C11/limits/period-duration-overflow`, witnessed on the implementation on every run). -/
+theorem period_nanos_overflow : (2 ^ 40 : Nat) * 10 ^ 9 ≥ 2 ^ 63 ∧ (9000000000 : Nat) * 10 ^ 9 < 2 ^ 63 := by decide
+
 /-! ### Application wiring (table `Gen.App`) -/
 
 /-- the basket keeper's hooks are registered with the slashing and the multistaking keeper: a slashed staking pool is
